@@ -145,13 +145,18 @@ def feed_and_check(v, frags, groups, cmd_bytes, data_bytes, pc_id, cls_name, mod
         problems.append('class %s instead of %s' % (type(msg).__name__, cls_name))
     if dec.pc_id != pc_id:
         problems.append('context id %r instead of %r' % (dec.pc_id, pc_id))
-    got_cmd = D.dsutils.encode(msg.command_set, True, True)
     try:
-        same = cmdset.read(got_cmd) == cmdset.read(cmd_bytes)
-    except cmdset.CmdError:
-        same = False
-    if not same:
-        problems.append('command set differs')
+        got_cmd = cmdset.encode_dataset(msg.command_set)           # independent of the library's encoder
+        got, want = cmdset.read(got_cmd), cmdset.read(cmd_bytes)
+        same = got == want
+    except Exception as exc:      # noqa - the delivered command set cannot even be walked: that is the finding
+        same, got, want = False, [], []
+        problems.append('delivered command set is not readable: %s: %s' % (type(exc).__name__, str(exc)[:120]))
+    if not same and got:
+        gt, wt = [t for t, _ in got], [t for t, _ in want]
+        problems.append('command set differs (elements added %s, lost %s, changed %s)' % (
+            ['%08x' % t for t in gt if t not in wt], ['%08x' % t for t in wt if t not in gt],
+            ['%08x' % t for t, x in got if t in wt and dict(want)[t] != x]))
     if data_bytes:
         ds = msg.data_set
         if mode == 'mem':
@@ -187,6 +192,15 @@ def feed_and_check(v, frags, groups, cmd_bytes, data_bytes, pc_id, cls_name, mod
     return events
 
 
+OPTIONAL_TAGS = (0x00001030, 0x00001031, 0x00001020, 0x00001021, 0x00001022, 0x00001023)     # move originator, sub-operation counters
+
+
+def without_optional(cmd, rng, p=0.5):
+    """The same command set as another implementation would send it: optional / conditional elements simply absent."""
+    elems = [(t, x) for t, x in cmdset.read(cmd) if t != 0 and not (t in OPTIONAL_TAGS and rng.random() < p)]
+    return cmdset.write(elems)
+
+
 def message_material(cls, rng, with_data, ts):
     msg = D.fill(cls(), rng)
     if with_data:
@@ -195,7 +209,9 @@ def message_material(cls, rng, with_data, ts):
     else:
         data = b''
     msg.set_length()
-    cmd = D.dsutils.encode(msg.command_set, True, True)
+    cmd = cmdset.encode_dataset(msg.command_set)
+    if rng.random() < 0.5:
+        cmd = without_optional(cmd, rng)
     return cmd, data
 
 
@@ -235,7 +251,19 @@ def main(tier='quick'):
     for si in range(120 if tier == 'quick' else 1500):
         tsa, tsb = rng.sample(TS, 2)
         ctxs = {1: Ctx(1, STORE_SOP, tsa), 3: Ctx(3, STORE_SOP, tsb), 5: Ctx(5, MEM_SOP, rng.choice(TS)), 7: Ctx(7, '1.2.840.10008.1.1', TS[0])}
-        sink = ProviderSink(ctxs, [STORE_SOP])
+        # which classes are received into files is decided by how the entity was configured: take it from a real one
+        order = ('scp', 'scu-scp', 'scp-scu')[si % 3]
+        node = D.applicationentity.AE('NODE', 0, bind_and_activate=False)
+        try:
+            node.server_close()
+        except Exception:      # noqa
+            pass
+        if order == 'scu-scp':
+            node.add_scu(D.sopclass.storage_scu, [STORE_SOP])
+        node.add_scp(D.sopclass.storage_scp)
+        if order == 'scp-scu':
+            node.add_scu(D.sopclass.storage_scu, [STORE_SOP])
+        sink = ProviderSink(ctxs, node.store_in_file)
         n_sessions += 1
         for mi in range(rng.choice([2, 3, 4])):
             beh = behaviours[rng.randrange(len(behaviours))]
@@ -265,13 +293,15 @@ def main(tier='quick'):
                 msg.data_set = data
             msg.set_length()
             cmd = cmdset.encode_dataset(msg.command_set)
+            if rng.random() < 0.5:
+                cmd = without_optional(cmd, rng)
             frags = [(True, i == len(nc) - 1, pl) for i, pl in enumerate(split_to(cmd, nc))] + \
                     [(False, i == len(nd) - 1, pl) for i, pl in enumerate(split_to(data, nd))]
             if nd:
                 groups = [(g['k'], g['receiving']) for g in beh['groups']]
             else:       # the behaviour's data fragments are not sent: regroup the command fragments one per PDU
                 groups = [(1, i < len(nc) - 1) for i in range(len(nc))]
-            meta = {'kind': 'session', 'session': si, 'message': mi, 'class': cls_name, 'mode': mode, 'ctx': pcid, 'ts': str(ts),
+            meta = {'kind': 'session', 'session': si, 'message': mi, 'class': cls_name, 'mode': mode, 'ctx': pcid, 'ts': str(ts), 'entity_configured': order,
                     'contexts': {str(k): [c.sop_class, str(c.supported_ts)] for k, c in ctxs.items()},
                     'cmd_frags': nc, 'data_frags': nd, 'grouping': [g[0] for g in groups]}
             if feed_and_check(v, frags, groups, cmd, data, pcid, cls_name, mode, ts, meta, sink=sink) is None:
